@@ -831,6 +831,9 @@ func Repeat(env envs.Environment, text *types.XText, count int) types.XValue {
 	if count < 0 {
 		return types.NewXErrorf("must be called with a positive integer, got %d", count)
 	}
+	if count > 0 && len(text.Native()) > maxRepeatOutput/count {
+		return types.NewXErrorf("result would be longer than %d bytes", maxRepeatOutput)
+	}
 
 	var output bytes.Buffer
 	for j := 0; j < count; j++ {
@@ -839,6 +842,9 @@ func Repeat(env envs.Environment, text *types.XText, count int) types.XValue {
 
 	return types.NewXText(output.String())
 }
+
+// the longest text that repeat will produce
+const maxRepeatOutput = 10_000_000
 
 // Replace replaces up to `count` occurrences of `needle` with `replacement` in `text`.
 //
